@@ -41,6 +41,8 @@ func c12Ops() []histOp {
 		{"listing-element-identity", "P.ch = {n: %f}; T = " + BI("values", "{only: P.ch}") + "; T[0].n = %f; " + Print("P.ch.n") + " " + Print("T[0] == P.ch") + " T = nil;", false},
 		// the values of a literal are computed in the order written (each from a shared counter), whatever the names are
 		{"literal-values-from-counter", "Q = {name: nx(), city: nx(), age: nx(), zip: nx(), b: nx()}; " + Print("Q.name - Q.age"), false}, {"literal-nested-values-from-counter", "R = {z: nx(), inner: {y: nx(), a: nx()}, a: nx()}; " + Print("R.inner.a - R.z"), false},
+		// names and values with compatibility characters stay what they are (micro sign and Greek mu are two names)
+		{"compatibility-characters", "R = {\u00b5: %f, \u03bc: %f, area: \"m\u00b2\", half: \"\u00bd\"}; " + Print("R.\u00b5 - R.\u03bc") + " " + del("R", "\"\u03bc\""), false},
 		// names may start with an underscore
 		{"underscore-names", "P._id = %f; Q = {_rev: %f, _: %f, __x: {_y: %f}}; " + Print("P._id + Q._rev + Q._ + Q.__x._y") + " " + del("Q", `"_"`), false},
 		// names differing in letter case or digit script are different names; listings stay mutually consistent for them
@@ -109,6 +111,9 @@ func c12Run(c *Ctx) {
 		// comments of every shape between the parts of object code change nothing
 		Lines(Var("acct", "{ /** owner **/ owner: \"o\", /* balance */ balance: 5, /**** flags ****/ flags: {a: 1}, /***/ z: 0 }"), Print("acct"), Print("acct.owner"), "/**** overrides ****/", "acct.owner = \"p\";", "/* plain */ acct.extra = 1; /** even **/", BI("delete", "acct", `"balance"`)+"; /*** odd ***/", Print("acct"), "/** last **/", Print(BI("keys", "acct"))),
 		Lines("/**/"+Var("o", "{}")+"/****/", "o.a /**/ = /*****/ 1;", "o /* x **/ .b = 2; /** y */", Print("o /***/ .a + o.b"), "/** a ** b *** c **/ "+Print("o")),
+		// a variable without a value in a declaration list is nil, not another object
+		Lines(K["var"]+" a = {n: 1}, b;", Print("a"), Print("b"), Print(`"before"`), Print("b.n"), Print(`"AFTER"`)),
+		Lines(Var("list", "{head: {v: 1, next: {v: 2, next: {v: 3, next: nil}}}}"), K["var"]+" cur = list.head, prev;", Var("guard", "0"), While("cur != nil && guard < 10", "{ "+Var("nx", "cur.next")+" cur.next = prev; prev = cur; cur = nx; guard = guard + 1; }"), Var("w", "prev"), Var("out", `""`), Var("g2", "0"), While("w != nil && g2 < 10", "{ out = out + w.v + \" \"; w = w.next; g2 = g2 + 1; }"), Print("out")),
 		// nested literals are fresh per evaluation too, however constant they look: a constructor called twice, a loop body
 		Lines(Fun("rec", "", " "+Ret(`{name: "x", opts: {depth: 1, tags: {a: 1}}, list: [{n: 0}]}`)+" "), Var("r1", "rec()"), Var("r2", "rec()"), "r1.opts.depth = 9;", Print("r2.opts.depth"), BI("delete", "r1.opts", `"tags"`)+";", "r1.list[0].n = 5;", Print("r2"), Print("r1"), Print("rec()")),
 		Lines(Var("all", "[]"), For(Var("i", "0"), "i < 3", "i = i + 1", "{ "+Var("o", "{id: 0, pos: {x: 0, y: 0}}")+" o.id = i; o.pos.x = i * 10; all = "+BI("append", "all", "o")+"; }"), Print("all"), "all[0].pos.y = 7;", Print("all[1].pos"), Print("all[2].pos")),
